@@ -304,7 +304,7 @@ def discover_routes():
 
 def gen_rest(rng, tier, routes):
     """-> groups: [{password: bytes, cases: [{id, method, path, headers, shape}]}]"""
-    pws = [b"Secret1", rpassword(rng), b"p:W Basic q", "Pä✓wörd".encode(), b""]
+    pws = [b"Secret1", rpassword(rng), rpassword(rng), b"p:W Basic q", "Pä✓wörd".encode(), b""]
     if tier == "thorough":
         pws += [b"Z", rword(rng, 300, 300) + b"aB"] + [rpassword(rng) for _ in range(12)]
     long_n = 6000 if tier == "quick" else 40000
@@ -376,7 +376,7 @@ def grpc_shapes(rng, pw):
 
 
 def gen_grpc(rng, tier, methods):
-    pws = [b"Secret1", rpassword(rng), b"p:W Basic q", b""]
+    pws = [b"Secret1", rpassword(rng), rpassword(rng), b"p:W Basic q", b""]
     if tier == "thorough":
         pws += [b"Z", rword(rng, 300, 300) + b"aB"] + [rpassword(rng) for _ in range(12)]
     groups = []
@@ -820,13 +820,14 @@ def judge_tls(cfg, o, m_dec, m_start, model):
                             "[%s] the server started and its %s listener answers a TLS client that presents NO certificate (%s)" % (name, side.upper() if side == "rest" else "gRPC", nocert.get("detail"))))
         if pw:
             for p in o.get("password_probes") or []:
-                rej = p["outcome"] in ("Unauthenticated", "401")
+                # the gate's own rejection; a 401 WITH a body comes from behind the gate (session cookie handling)
+                rej = p["outcome"] == "Unauthenticated" or (p["outcome"] == "401" and p.get("body_empty"))
                 if p["cred"] in ("none", "wrong"):
                     if not rej:
-                        res.append(("violation", "accepted-without-password", "[%s] %s %s over %s with %s password was answered %s" % (name, p["proto"], p["route"], p["mode"], "no" if p["cred"] == "none" else "a wrong", p["outcome"])))
-                    elif not p.get("locks_same") or (p["proto"] == "rest" and not p.get("body_empty")):
-                        res.append(("violation", "rejected-request-has-effect", "[%s] %s %s with %s password was rejected but %s" % (
-                            name, p["proto"], p["route"], p["cred"], "LockServer.Locks() changed" if not p.get("locks_same") else "the body is not empty")))
+                        res.append(("violation", "accepted-without-password", "[%s] %s %s over %s with %s password got past the password check (answered %s)" % (
+                            name, p["proto"], p["route"], p["mode"], "no" if p["cred"] == "none" else "a wrong", p["outcome"])))
+                    elif not p.get("locks_same"):
+                        res.append(("violation", "rejected-request-has-effect", "[%s] %s %s with %s password was rejected but LockServer.Locks() changed" % (name, p["proto"], p["route"], p["cred"])))
                 elif rej:
                     res.append(("violation", "right-password-rejected", "[%s] %s %s over %s with the configured password was answered %s" % (name, p["proto"], p["route"], p["mode"], p["outcome"])))
     # ---- the decision function on its own against Model tls_decision
@@ -857,7 +858,7 @@ def judge_tls(cfg, o, m_dec, m_start, model):
             r = observed_listener(o, "rest", cfg) if cfg["rest"] and o.get("rest_listening") else "none"
             pwp = o.get("password_probes") or []
             gp = all(p["outcome"] == "Unauthenticated" for p in pwp if p["proto"] == "grpc" and p["cred"] != "right")
-            rp = all(p["outcome"] == "401" for p in pwp if p["proto"] == "rest" and p["cred"] != "right")
+            rp = all(p["outcome"] == "401" and p.get("body_empty") for p in pwp if p["proto"] == "rest" and p["cred"] != "right")
             obs_tok = "run:%s:%s:%d:%d" % (g, r, 1 if gp else 0, 1 if rp else 0)
             if not exp.startswith("run:"):
                 res.append(("mismatch", "startup-vs-model", "[%s] the server started (%s), Model startup = %s" % (name, obs_tok, exp)))
@@ -1193,7 +1194,7 @@ def run(ctx):
         m_dec, m_start = (ans[2 * i], ans[2 * i + 1]) if ans else (None, None)
         for (v, rule, text) in judge_tls(cfg, o, m_dec, m_start, model):
             results.append({"kind": "tls", "verdict": v, "rule": rule, "text": text, "pw": cfg["password"], "case": cfg, "obs": o,
-                            "model": {"tls_decision": m_dec, "startup": m_start}, "route": "", "size": case_size("tls", cfg)})
+                            "model": {"tls_decision": m_dec, "startup": m_start}, "route": cfg_name(cfg), "size": case_size("tls", cfg)})
     ctx.note("tls: %d configurations, outcomes %s (waited %.1fs)" % (len(tobs), outcomes, time.time() - t1))
     if tobs and outcomes.get("harness-error", 0) > 0.3 * len(tobs):
         stage_fail.append("TLS stage: %d of %d child runs failed: %s" % (outcomes["harness-error"], len(tobs), next(o.get("log", "") for o in tobs if o["outcome"] == "harness-error")[-300:]))
@@ -1217,7 +1218,8 @@ def short_obs(kind, o):
     if kind == "tls":
         r = {k: o.get(k) for k in ("outcome", "error", "panic", "rest_listening", "direct", "facts", "probe_errors") if o.get(k) not in (None, "", [])}
         r["probes"] = {k: {"reached": v.get("reached"), "detail": (v.get("detail") or "")[:160]} for k, v in (o.get("probes") or {}).items()}
-        bad = [p for p in o.get("password_probes") or [] if (p["cred"] == "right") == (p["outcome"] in ("Unauthenticated", "401")) or not p.get("locks_same", True)]
+        bad = [p for p in o.get("password_probes") or []
+               if (p["cred"] == "right") == (p["outcome"] == "Unauthenticated" or (p["outcome"] == "401" and p.get("body_empty"))) or (p["cred"] != "right" and not p.get("locks_same", True))]
         r["password_probes"] = {"n": len(o.get("password_probes") or []), "not_as_required": bad[:10]}
         return r
     return o
@@ -1267,7 +1269,7 @@ def verdict(ctx, results, stage_fail, coq_ok, coq_probs):
         nm = re.sub(r"[^A-Za-z0-9_.-]+", "_", "violation_%s_%s" % (k[0], k[1]))[:120] + ".json"
         ro = replay_obj(ctx, r, len(rs) - 1)
         ro["failing_cases_per_route"] = where
-        ctx.violation(ro, r["text"] + ("   [%d more failing cases of this kind, routes/methods: %s]" % (len(rs) - 1, ", ".join(sorted(where))[:200]) if len(rs) > 1 else "") + extra, name=nm)
+        ctx.violation(ro, r["text"] + ("   [%d more failing cases of this kind%s]" % (len(rs) - 1, "" if k[0] == "tls" else "; routes/methods: " + ", ".join(sorted(where))[:200]) if len(rs) > 1 else "") + extra, name=nm)
     if len(keys) > 10:
         ctx.note("%d more groups of failing inputs not written out" % (len(keys) - 10))
     if viol:
